@@ -130,6 +130,14 @@ def who_may_call(chk):
                 if f in HOOK_REGISTRARS:
                     inside = _enclosing(mi, node)
                     ok = inside == ("Calibration", "__enter__")
+                    if not ok and inside[0] == "Calibration" and inside[1] and inside[1].startswith("_") and not inside[1].startswith("__"):
+                        # a private method of Calibration whose only callers are in __enter__ is part of __enter__
+                        callers = set()
+                        for mi2 in repo.modules.values():
+                            for n2 in ast.walk(mi2.tree):
+                                if isinstance(n2, ast.Call) and isinstance(n2.func, ast.Attribute) and n2.func.attr == inside[1]:
+                                    callers.add(_enclosing(mi2, n2))
+                        ok = bool(callers) and callers <= {("Calibration", "__enter__")}
                     n += 1
                     chk.require("C13.R2", f"{mi.rel}:{node.lineno}", ok, f"{f} is called in {inside}", ".".join(x or "?" for x in inside), f"global hook registration outside Calibration.__enter__: {f}", "any use of that code path: a global hook with no paired removal")
             if isinstance(node, ast.ClassDef) and node is not cal.node:
